@@ -14,7 +14,8 @@ from catalogue import configs as C
 
 CTYPE = dict((t.name, t.c) for t in C.ALL)
 UTYPE = {8: 'uint8_t', 16: 'uint16_t', 32: 'uint32_t', 64: 'uint64_t'}
-ARGN = {'b': ['a', 'b', 'c', 'd'], 'm': ['m', 'n'], 's': ['s', 't'], 'u': ['u', 'v'], 'p': ['p', 'q'], 'P': ['o', 'r']}
+ARGN = {'b': ['a', 'b', 'c', 'd'], 'm': ['m', 'n'], 's': ['s', 't'], 'u': ['u', 'v'], 'p': ['p', 'q'], 'P': ['o', 'r'], 'x': ['x', 'y']}
+ITYPE = {8: 'int8_t', 16: 'int16_t', 32: 'int32_t', 64: 'int64_t'}
 
 
 def variants_of(op, ty, cfg=None, tier='quick'):
@@ -52,13 +53,19 @@ def fmt_var(var):
     return dict((k, (', '.join(str(e) for e in v) if isinstance(v, (list, tuple)) else v)) for k, v in var.items())
 
 
-def wrapper_line(op, ty, var):
+def wrapper_line(op, ty, var, cfg=None):
     ct = ty.c
+    nl = (cfg.bits // ty.bits) if cfg else 0
     names = []
     decl = []
     body = []
-    cnt = {'b': 0, 'm': 0, 's': 0, 'u': 0, 'p': 0, 'P': 0}
+    cnt = {'b': 0, 'm': 0, 's': 0, 'u': 0, 'p': 0, 'P': 0, 'x': 0}
     for k in op.params:
+        if k == 'E':
+            for i in range(nl):
+                names.append(('e', 'e%d' % i))
+                decl.append('%s e%d' % (ct, i))
+            continue
         nm = ARGN[k][cnt[k]]
         cnt[k] += 1
         names.append((k, nm))
@@ -70,6 +77,9 @@ def wrapper_line(op, ty, var):
             body.append('M_<%s> %s(%s_);' % (ct, nm, nm))
         elif k == 's':
             decl.append('%s %s' % (ct, nm))
+        elif k == 'x':
+            decl.append('R_<%s> %s_' % (ITYPE[ty.bits], nm))
+            body.append('B_<%s> %s(%s_);' % (ITYPE[ty.bits], nm, nm))
         elif k == 'u':
             decl.append('uint64_t %s' % nm)
         elif k == 'p':
@@ -77,10 +87,10 @@ def wrapper_line(op, ty, var):
         elif k == 'P':
             decl.append('%s* %s' % (op.ptr_type(ty) if hasattr(op, 'ptr_type') and op.ptr_type else ct, nm))
     if op.ret == 'void':
-        expr = op.expr.format(T=ct, TN=ty.name, U=UTYPE[ty.bits], **fmt_var(var))
+        expr = op.expr.format(T=ct, TN=ty.name, U=UTYPE[ty.bits], IT=ITYPE[ty.bits], ELIST=', '.join('e%d' % i for i in range(nl)), **fmt_var(var))
         return 'extern "C" void %s(%s) { %s %s; }' % (wname(op, ty, var), ', '.join(decl), ' '.join(body), expr), names
     rt = {'b': 'R_<%s>' % ct, 'm': 'Q_<%s>' % ct, 's': ct, 'bool': 'bool', 'u64': 'uint64_t', 'int': 'int', 'size': 'size_t'}.get(op.ret) or op.ret.format(T=ct)
-    expr = op.expr.format(T=ct, TN=ty.name, U=UTYPE[ty.bits], **fmt_var(var))
+    expr = op.expr.format(T=ct, TN=ty.name, U=UTYPE[ty.bits], IT=ITYPE[ty.bits], ELIST=', '.join('e%d' % i for i in range(nl)), **fmt_var(var))
     return 'extern "C" %s %s(%s) { %s return %s; }' % (rt, wname(op, ty, var), ', '.join(decl), ' '.join(body), expr), names
 
 
@@ -88,7 +98,7 @@ def make_tu(cfg, obls):
     lines = [build.PRELUDE % {'arch': cfg.arch}]
     meta = {}
     for (op, ty, var) in obls:
-        l, names = wrapper_line(op, ty, var)
+        l, names = wrapper_line(op, ty, var, cfg)
         lines.append(l)
         meta[wname(op, ty, var)] = (op, ty, var, names)
     return '\n'.join(lines) + '\n', meta
@@ -120,6 +130,14 @@ def arg_bvs(cfg, fn, ty, names):
                     raise lanes.Unsupported('mask argument passed as %s' % a['ty'])
                 out.append(T.cat(*[T.rep(b, W) for b in bits]))
             specargs.append(bits)
+        elif k == 'x':
+            lanes_ = [T.atom_bv(nm, i, W) for i in range(n)]
+            out.append(T.cat(*lanes_))
+            specargs.append(lanes_)
+        elif k == 'e':
+            bv = T.atom_bv(nm, 0, W)
+            out.append((T.sext if ty.signed else T.zext)(bv, t.bits) if t.bits > W else bv)
+            specargs.append([bv])
         elif k == 'u':
             # contract of from_mask: the mask is an n-bit value (the library asserts mask < 2^n)
             bv = T.cat(*([T.atom_bv(nm, i, 1) for i in range(n)] + [T.const(64 - n, 0)]))
